@@ -21,7 +21,7 @@ ASSUMPTIONS = ['RNG stubs: documented contracts only (listed in stubs)', 'the ra
                'interval ends range over [-6,6] (integers in [-4,4])']
 BOUNDS = {'quick': 'RandomFunction input_dim 1-3 x output_dim 1-2 x num_terms 1-2; vectors 2-3, matrices 2x2, 2x3, 3x3, tensor 2x2x2; SquareMatrices dims 2-3 '
                    'x {None, diagonal, symmetric, antisymmetric} x traceless', 'thorough': 'num_terms 3, dimension 4, norm obligation attempted (NRA)'}
-OUTSIDE = ['determinant 0/1 options (np.linalg.det/eigvals: LAPACK)', 'OrthogonalMatrices/UnitaryMatrices (scipy absent)',
+OUTSIDE = ['determinant=0 (eigenvalues: LAPACK) and determinant=1 beyond the stubbed real 2x2/3x3 families', 'OrthogonalMatrices/UnitaryMatrices (scipy absent)',
            'complex array samplers (object-dtype arrays would take numpy\'s real-norm path; hermitian/antihermitian force complex)',
            'argument (angle) of ComplexSector beyond the polar form', 'retry-loop counts', 'IEEE rounding']
 DEADLINE = {'quick': 170, 'thorough': 1500}
@@ -29,7 +29,7 @@ FUNCS = ['sampling.RealInterval.__init__/gen_sample', 'sampling.IntegerRange', '
          'sampling.SpecificFunctions', 'sampling.RandomFunction.gen_sample/random_function', 'matrixsampling.ArraySamplingSet.generate_sample/normalize',
          'matrixsampling.GeneralMatrices.apply_symmetry', 'matrixsampling.SquareMatrices.apply_symmetry/normalize', 'matrixsampling.IdentityMatrixMultiples.generate_sample',
          'validatorfuncs.NumberRange/is_shape_specification (voluptuous)']
-STUBS = ['sampling.np / matrixsampling.np -> proxy whose .random is SymRandom (random_sample, rand, randint contracts)', 'sampling.random.choice -> element at a fresh index',
+STUBS = ['det_one harnesses: matrixsampling.np.linalg.det -> exact cofactor expansion on object arrays; np.power(x, 1/n) -> exact positive n-th root witness', 'sampling.np / matrixsampling.np -> proxy whose .random is SymRandom (random_sample, rand, randint contracts)', 'sampling.random.choice -> element at a fresh index',
          'voluptuous isinstance shadow (SymReal passes as float, SymInt as int)']
 MUST_REACH = ['integer-endpoints-attainable', 'discrete-only-listed-members', 'random-function-within-amplitude']
 
@@ -279,6 +279,74 @@ def h_array_norm(E, n):
     return 'ok'
 
 
+def _cofactor_det(a):
+    n = a.shape[0]
+    if n == 1:
+        return a[0, 0]
+    if n == 2:
+        return a[0, 0] * a[1, 1] - a[0, 1] * a[1, 0]
+    tot = 0
+    for j in range(n):
+        minor = np.array([[a[i, k] for k in range(n) if k != j] for i in range(1, n)], dtype=object)
+        term = a[0, j] * _cofactor_det(minor)
+        tot = tot + term if j % 2 == 0 else tot - term
+    return tot
+
+
+class _ExactLinalg:
+    """np.linalg for the sampler module: det of an object array = exact cofactor expansion (the documented value of det)"""
+
+    def __getattr__(self, n):
+        return getattr(np.linalg, n)
+
+    def det(self, a):
+        if isinstance(a, np.ndarray) and a.dtype == object:
+            return _cofactor_det(a)
+        return np.linalg.det(a)
+
+
+def h_det_one(E, dim, sym):
+    """determinant=1 (real families): det(sample) = 1 with np.linalg.det as exact cofactor expansion and x**(1/n) as the exact positive n-th root"""
+    import mitxgraders.matrixsampling as M
+    from mitxgraders.helpers.calc.math_array import MathArray
+    roots = []
+
+    class P(NpRandomProxy):
+        linalg = _ExactLinalg()
+
+        def power(self, x, p):
+            if is_sym(x):
+                if E.mode == 'sym':
+                    t = SymReal(E.fresh(z3.RealSort(), 'root'))
+                    tn = t
+                    for _ in range(dim - 1):
+                        tn = tn * t
+                    E.assume(z3.And(t.e > 0, tn.e == lift(x)))
+                    roots.append(t)
+                    return t
+            return np.power(x, p)
+    with rng(E) as (r, ch):
+        draws = [0]
+        orig = r.random_sample
+
+        def once(size=None):
+            draws[0] += 1
+            if draws[0] > 1 and size is not None:
+                raise Abort()           # a re-draw after Retry: excluded (the claim is about samples accepted at the first draw)
+            return orig(size)
+        r.random_sample = once
+        with shadow(M, np=P(r)):
+            s = M.SquareMatrices(dimension=dim, symmetry=sym, determinant=1)
+            try:
+                A = s.gen_sample()
+            except ZeroDivisionError:
+                raise Abort()
+    E.check('is-MathArray-of-declared-shape', isinstance(A, MathArray) and A.shape == (dim, dim))
+    d = _cofactor_det(np.asarray(A, dtype=object)) if E.mode == 'sym' else float(np.linalg.det(np.asarray(A, dtype=float)))
+    E.check('determinant-is-one', near_eq(d, 1) if E.mode == 'sym' else abs(d - 1) < 1e-9)
+    return 'ok'
+
+
 def h_identity_multiples(E, dim):
     import mitxgraders.matrixsampling as M
     from mitxgraders.helpers.calc.math_array import MathArray
@@ -326,6 +394,8 @@ def harnesses(tier):
                 hs.append(Harness(pname('array', kind='square', dim=dim, symmetry=sym, traceless=tl), h_array, ('square', (dim, dim), (sym, tl)), FUNCS,
                                   'norm ends in [0.5,6]', STUBS))
         add(h_identity_multiples, 'identity_multiples', dict(dim=dim), 'scalar range ends in [-6,6]')
+    for dim, sym in [(2, 'diagonal'), (3, 'diagonal'), (2, 'symmetric'), (2, None)] + ([(3, 'symmetric'), (3, None)] if T else []):
+        add(h_det_one, 'det_one', dict(dim=dim, symmetry=sym), 'determinant=1, real family, first draw; exact cofactor determinant', expect_inconclusive=True)
     if T:
         add(h_array_norm, 'array_norm', dict(n=2), '2-vector, norm in [2,3] (NRA attempt)', expect_inconclusive=True)
     return hs
